@@ -463,15 +463,31 @@ Theorem C05_Sph_fitT_roundtrip az0 s0 ze0 s1 ax s2 q0 q1 q2 : s2*s2 = 1 ->
 Proof. exact (Sph_fitT_roundtrip az0 s0 ze0 s1 ax s2 q0 q1 q2). Qed.
 Print Assumptions C05_Sph_fitT_roundtrip.
 
-Theorem C05_quat_of_R_unnormalised_partial e0 e1 e2 e3' : e0*e0+e1*e1+e2*e2+e3'*e3' = 1 ->
-  let R := Rquat ROps (e0,e1,e2,e3') in
-  let tr := m33_e R 0 0 + m33_e R 1 1 + m33_e R 2 2 in
-  (1 + tr, m33_e R 2 1 - m33_e R 1 2, m33_e R 0 2 - m33_e R 2 0, m33_e R 1 0 - m33_e R 0 1) = v4_scale ROps (4*e0) (e0,e1,e2,e3') /\
-  (m33_e R 2 1 - m33_e R 1 2, 1 - (tr - 2 * m33_e R 0 0), m33_e R 0 1 + m33_e R 1 0, m33_e R 0 2 + m33_e R 2 0) = v4_scale ROps (4*e1) (e0,e1,e2,e3') /\
-  (m33_e R 0 2 - m33_e R 2 0, m33_e R 0 1 + m33_e R 1 0, 1 - (tr - 2 * m33_e R 1 1), m33_e R 1 2 + m33_e R 2 1) = v4_scale ROps (4*e2) (e0,e1,e2,e3') /\
-  (m33_e R 1 0 - m33_e R 0 1, m33_e R 0 2 + m33_e R 2 0, m33_e R 1 2 + m33_e R 2 1, 1 - (tr - 2 * m33_e R 2 2)) = v4_scale ROps (4*e3') (e0,e1,e2,e3').
-Proof. exact (quat_of_R_unnormalised_partial e0 e1 e2 e3'). Qed.
-Print Assumptions C05_quat_of_R_unnormalised_partial.
+Theorem C05_quat_branch_Rquat (k : nat) e0 e1 e2 e3' : e0*e0+e1*e1+e2*e2+e3'*e3' = 1 ->
+  quat_branch ROps k (Rquat ROps (e0,e1,e2,e3')) =
+  v4_scale ROps (4 * match k with O => e0 | S O => e1 | S (S O) => e2 | _ => e3' end) (e0,e1,e2,e3').
+Proof. exact (quat_branch_Rquat k e0 e1 e2 e3'). Qed.
+Print Assumptions C05_quat_branch_Rquat.
+
+Theorem C05_quat_pick_nonzero e0 e1 e2 e3' : e0*e0+e1*e1+e2*e2+e3'*e3' = 1 ->
+  match quat_pick ROps (Rquat ROps (e0,e1,e2,e3')) with O => e0 | S O => e1 | S (S O) => e2 | _ => e3' end <> 0.
+Proof. exact (quat_pick_nonzero e0 e1 e2 e3'). Qed.
+Print Assumptions C05_quat_pick_nonzero.
+
+Theorem C05_quat_normalise_same_rotation q : v4_normSqr ROps q <> 0 -> quatR ROps (quat_normalise ROps q) = quatR ROps q.
+Proof. exact (quat_normalise_same_rotation q). Qed.
+Print Assumptions C05_quat_normalise_same_rotation.
+
+Theorem C05_Ball_fit_roundtrip_q e0 e1 e2 e3' : e0*e0+e1*e1+e2*e2+e3'*e3' = 1 ->
+  quatR ROps (Ball_fitRq ROps (Rquat ROps (e0,e1,e2,e3'))) = Rquat ROps (e0,e1,e2,e3').
+Proof. exact (Ball_fit_roundtrip_q e0 e1 e2 e3'). Qed.
+Print Assumptions C05_Ball_fit_roundtrip_q.
+
+Theorem C05_Free_fit_roundtrip_q e0 e1 e2 e3' p : e0*e0+e1*e1+e2*e2+e3'*e3' = 1 ->
+  let X := Free_Xq ROps (e0,e1,e2,e3') p in
+  Free_Xq ROps (Ball_fitRq ROps (Rquat ROps (e0,e1,e2,e3'))) (snd X) = X.
+Proof. exact (Free_fit_roundtrip_q e0 e1 e2 e3' p). Qed.
+Print Assumptions C05_Free_fit_roundtrip_q.
 
 Theorem C05_BendStretch_fit_negative_stretch_refuted :
   exists q0 q1, BendStretch_X ROps (BendStretch_fitT ROps (snd (BendStretch_X ROps (q0,q1)))) <> BendStretch_X ROps (q0,q1).
